@@ -325,19 +325,19 @@ def case_info(col, p):
                     col.violation('C19:LRT_adjust:closed_form', dict(info, nested=nested), {'got': float(got), 'exact': ex, 'tol': tol})
                 else:
                     col.observe('LRT_adjust_sets', abs(got / ex - 1) / tol)
-    if not log and not multinom:
-        # bootstraps with their own relative theta: gradient of ll(adj*M, boot) is sum (boot/M - adj) dM
+    if not multinom:
+        # bootstraps with their own relative theta: gradient of ll(adj*M, boot) is sum (boot/M - adj) dM  (times p for log-parameters)
         eps = 2.5e-3
         adj = [1.0 + 0.07 * ((b % 3) - 1) + 0.01 * b for b in range(len(boots))]
         m_ = Mx[sel]
-        gadj = [np.array([np.sum((np.asarray(bt.data)[sel] / m_ - a_) * D[q][sel]) for q in range(kk)]) for bt, a_ in zip(boots, adj)]
+        gadj = [np.array([np.sum((np.asarray(bt.data)[sel] / m_ - a_) * D[q][sel]) for q in range(kk)]) * (pe if log else 1.0) for bt, a_ in zip(boots, adj)]
         Jadj = sum(np.outer(g, g) for g in gadj) / len(gadj)
         Gadj = Hc @ np.linalg.inv(Jadj) @ Hc
         Godambe.cache.clear()
-        _, H_before = Godambe.FIM_uncert(f, [20], list(p0), data, multinom=False, eps=eps, return_FIM=True)
-        _, got_G, _h = Godambe.GIM_uncert(f, [20], boots, list(p0), data, multinom=False, eps=eps, return_GIM=True, boot_theta_adjusts=adj)
-        _, got_G2, _h2 = Godambe.GIM_uncert(f, [20], list(reversed(boots)), list(p0), data, multinom=False, eps=eps, return_GIM=True, boot_theta_adjusts=list(reversed(adj)))
-        _, H_after = Godambe.FIM_uncert(f, [20], list(p0), data, multinom=False, eps=eps, return_FIM=True)      # same cache: must not have been polluted
+        _, H_before = Godambe.FIM_uncert(f, [20], list(p0), data, log=log, multinom=False, eps=eps, return_FIM=True)
+        _, got_G, _h = Godambe.GIM_uncert(f, [20], boots, list(p0), data, log=log, multinom=False, eps=eps, return_GIM=True, boot_theta_adjusts=adj)
+        _, got_G2, _h2 = Godambe.GIM_uncert(f, [20], list(reversed(boots)), list(p0), data, log=log, multinom=False, eps=eps, return_GIM=True, boot_theta_adjusts=list(reversed(adj)))
+        _, H_after = Godambe.FIM_uncert(f, [20], list(p0), data, log=log, multinom=False, eps=eps, return_FIM=True)      # same cache: must not have been polluted
         col.tick(transitions=4)
         e_ = float(np.max(np.abs(got_G - Gadj)) / np.max(np.abs(Gadj)))
         bound = 2e-3 * max(1.0, float(np.linalg.cond(Jadj)) * 1e-3)
@@ -348,6 +348,30 @@ def case_info(col, p):
         if not np.array_equal(H_before, H_after):
             col.violation('C19:result_depends_on_call_history', dict(info, what='FIM after GIM with boot_theta_adjusts'),
                           {'maxrel': float(np.max(np.abs(H_after - H_before)) / np.max(np.abs(H_before)))})
+    if not log:
+        # the parameter vector given as a float array (what the optimisers return) must come back untouched, and give the same numbers as a list
+        eps = 2.5e-3
+        nested = [k - 1]
+        full = list(p0)
+        full[k - 1] = p0[k - 1] * 1.3
+        calls = {
+            'LRT_adjust': lambda pv: Godambe.LRT_adjust(f, [20], boots[:4], pv, data, nested, multinom=multinom, eps=eps),
+            'Wald_stat': lambda pv: Godambe.Wald_stat(f, [20], boots[:4], pv, data, nested, full, multinom=multinom, eps=eps),
+            'score_stat': lambda pv: Godambe.score_stat(f, [20], boots[:4], pv, data, nested, multinom=multinom, eps=eps),
+            'FIM_uncert': lambda pv: Godambe.FIM_uncert(f, [20], pv, data, multinom=multinom, eps=eps),
+            'GIM_uncert': lambda pv: Godambe.GIM_uncert(f, [20], boots[:4], pv, data, multinom=multinom, eps=eps),
+        }
+        for nm, fn_ in calls.items():
+            Godambe.cache.clear()
+            ref_ = np.asarray(fn_(list(p0)), dtype=float)
+            arr_ = np.array(p0, dtype=float)
+            Godambe.cache.clear()
+            got_ = np.asarray(fn_(arr_), dtype=float)
+            col.tick(transitions=2)
+            if not np.array_equal(arr_, np.array(p0, dtype=float)):
+                col.violation('C19:%s:p0_array_modified' % nm, info, {'before': np.array(p0, dtype=float), 'after': arr_})
+            if not np.allclose(got_, ref_, rtol=1e-12, atol=0, equal_nan=True):
+                col.violation('C19:%s:array_p0_differs_from_list_p0' % nm, info, {'list': ref_, 'array': got_})
     # permutation invariance of the bootstraps + LRT / Wald / score closed forms (not for log)
     if not log:
         nested = [k - 1]
